@@ -60,15 +60,15 @@ type WorkerViolation struct {
 
 // WorkerSummary is what a worker process prints.
 type WorkerSummary struct {
-	Evaluations int               `json:"evaluations"`
-	Cycles      uint64            `json:"cycles"`
-	Sigs        map[string]int    `json:"sigs"`
-	Faults      map[string]int    `json:"faults"`
-	Probes      map[string]int    `json:"probes"`
-	Violations  []WorkerViolation `json:"violations"`
-	ClassCount  map[string]int    `json:"class_count"`
-	Harness     []string          `json:"harness"`
-	Digests     map[int]uint64    `json:"digests,omitempty"`
+	Evaluations  int               `json:"evaluations"`
+	Cycles       uint64            `json:"cycles"`
+	Sigs         map[string]int    `json:"sigs"`
+	Faults       map[string]int    `json:"faults"`
+	Probes       map[string]int    `json:"probes"`
+	Violations   []WorkerViolation `json:"violations"`
+	ClassCount   map[string]int    `json:"class_count"`
+	Harness      []string          `json:"harness"`
+	Digests      map[int]uint64    `json:"digests,omitempty"`
 	from, stride int
 }
 
@@ -269,10 +269,16 @@ func RunBatch(cfg BatchConfig) int {
 		fmt.Printf("HARNESS-FAULT property=%s: %s\n", id, strings.Join(procErr, "\n"))
 		return 2
 	}
-	if len(total.Harness) > 0 {
+	if len(total.Harness) > 0 && len(total.Violations) == 0 {
 		sort.Strings(total.Harness)
 		fmt.Printf("HARNESS-FAULT property=%s: %s\n", id, total.Harness[0])
 		return 2
+	}
+	if len(total.Harness) > 0 {
+		// Scenarios the harness could not judge do not hide violations found (and replayed in a fresh
+		// process) in other scenarios; they are listed and, if no violation survives, still end in exit 2.
+		sort.Strings(total.Harness)
+		fmt.Printf("also: %d scenario(s) could not be judged by the harness, first: %.300s\n", len(total.Harness), total.Harness[0])
 	}
 	known, err := LoadKnown(filepath.Join(cfg.VerifDir, "known_findings.json"))
 	if err != nil {
@@ -386,6 +392,10 @@ func RunBatch(cfg BatchConfig) int {
 		fmt.Printf("VIOLATION property=%s replay=%s\n", id, replayPath)
 		exit = 1
 	}
+	if exit == 0 && len(total.Harness) > 0 {
+		fmt.Printf("HARNESS-FAULT property=%s: %s\n", id, total.Harness[0])
+		return 2
+	}
 	info := p.Describe()
 	if exit == 0 {
 		for _, pr := range info.RequiredProbes {
@@ -404,22 +414,22 @@ func RunBatch(cfg BatchConfig) int {
 	}
 	distinct := len(total.Sigs)
 	cov := map[string]interface{}{
-		"evaluations":         total.Evaluations,
-		"distinct_nontrivial": distinct,
-		"rule":                info.Rule,
-		"samples":             samples,
-		"exhaustive":          false,
-		"sim_cycles":          total.Cycles,
-		"sim_seconds":         float64(total.Cycles) / 1048576.0,
-		"runs_per_hour":       float64(total.Evaluations) / wall * 3600,
-		"seeds_this_run":      1,
-		"faults_fired":        total.Faults,
-		"probes":              total.Probes,
-		"sweeps":              info.Sweeps,
-		"real_components":     info.RealComponents,
-		"stub_components":     info.StubComponents,
-		"worker_processes":    w,
-		"known_findings_seen": knownSeen,
+		"evaluations":             total.Evaluations,
+		"distinct_nontrivial":     distinct,
+		"rule":                    info.Rule,
+		"samples":                 samples,
+		"exhaustive":              false,
+		"sim_cycles":              total.Cycles,
+		"sim_seconds":             float64(total.Cycles) / 1048576.0,
+		"runs_per_hour":           float64(total.Evaluations) / wall * 3600,
+		"seeds_this_run":          1,
+		"faults_fired":            total.Faults,
+		"probes":                  total.Probes,
+		"sweeps":                  info.Sweeps,
+		"real_components":         info.RealComponents,
+		"stub_components":         info.StubComponents,
+		"worker_processes":        w,
+		"known_findings_seen":     knownSeen,
 		"signature_histogram_top": topSigs(total.Sigs, 12),
 	}
 	ev := map[string]interface{}{
